@@ -49,6 +49,21 @@ def gen(tier):
         prog = {'nodes': g.nodes, 'out': i, 'taps': [i]}
         scs.append(progs.scenario(len(scs) + 1, [progs.step_run('r', prog), progs.step_scan('r')],
                                   exec_=rng.choice(['local', 'bigmachine']), machprocs=2))
+    # dedicated: one sub-slice feeding two redistributing operators with the same shard count but different
+    # partitioning (the producer tasks must not be shared between them), observed per shard
+    for k in range(8 if tier == 'quick' else 60):
+        g = progs.Gen(rng)
+        nsh = rng.choice([2, 3])
+        s0 = g.add(progs.N('const', nshard=nsh, rows=progs.rows(rng, rng.choice([6, 9, 14]), 6)), 'eo', nsh)
+        if rng.random() < 0.5:
+            s0 = g.add(progs.N('map', **{'in': [s0]}, f='inc'), 'eo', nsh)
+        a = g.add(progs.N(rng.choice(['reshuffle', 'reshuffle', 'fold']), **{'in': [s0]}), 'bag', nsh)
+        b = g.add(progs.N('repartition', **{'in': [s0]}), 'bag', nsh)
+        ins = [a, b] if k % 2 == 0 else [b, a]
+        out = g.add(progs.N('cogroup', **{'in': ins}), 'bag', nsh)
+        prog = {'nodes': g.nodes, 'out': out, 'taps': [a, b, out]}
+        scs.append(progs.scenario(len(scs) + 1, [progs.step_run('r', prog), progs.step_scan('r')],
+                                  exec_=rng.choice(['local', 'bigmachine']), machprocs=2))
     # dedicated: Scan operator as sink
     for _ in range(12 if tier == 'quick' else 100):
         g = progs.Gen(rng)
